@@ -61,7 +61,7 @@ def gen_program(rng, length, mix):
             prog.append(["newtab_dict", [[rng.choice(["a", "b", "c", "x"]), rand_vals(rng, n)] for _ in range(w_)]])
         elif o == "newtab_vecs":
             prog.append(["newtab_vecs", [rng.randint(0, 50) for _ in range(rng.randint(1, 3))]])
-        elif o in ("copy", "fp", "read", "drop", "cycle_drop", "transpose", "sort", "math"):
+        elif o in ("copy", "fp", "read", "drop", "cycle_drop", "transpose", "sort", "math", "fillna", "dropna"):
             prog.append([o, s])
         elif o == "gc":
             prog.append(["gc"])
@@ -389,6 +389,18 @@ def _exec(w, pop, changed_ok):
             else:
                 r = o.copy()
                 op_term = _vec_result(w, r, f"(CFrom {cnat(w.handle_of(o))} None)")
+        elif kind in ("fillna", "dropna"):
+            # "nothing to fill / nothing to drop": the result holds the same values - and must still be a new
+            # vector with storage of its own
+            o = w.slot(pop[1], "v")
+            d = o.__dict__
+            if isinstance(o, Table) or d.get("_dtype") is None or d["_dtype"].nullable or d["_dtype"].kind is object \
+                    or any(x is None for x in d["_underlying"]):
+                raise Skip()
+            r = o.fillna(0) if kind == "fillna" else o.dropna()
+            if not isinstance(r, Vector) or isinstance(r, Table) or r._name != o._name:
+                raise Skip()
+            op_term = _vec_result(w, r, f"(CFrom {cnat(w.handle_of(o))} None)")
         elif kind == "vcat":
             o = w.slot(pop[1], "v")
             if o._dtype is None and not pop[2]:
